@@ -189,6 +189,8 @@ type c13Run struct {
 	disp   *vStubDispatcher
 	conn   *c13Conn
 	win    []byte
+	rb     []byte // the connection handler's read buffer (c.win is a window into it)
+	roff   int
 	lst    *Listener
 	fail   string
 	key    string
@@ -288,7 +290,22 @@ func c13Exec(ops []string) (res vResult) {
 			}
 			wasClosed := c.s.IsClosed()
 			if !wasClosed {
-				c.win = append(c.win, chunk...)
+				// the connection handler's read buffer: unconsumed bytes stay where they are, new bytes are appended behind them,
+				// and once everything is consumed the buffer is used again from its beginning (so a handler that kept a window
+				// into it sees later traffic there)
+				if len(c.win) == 0 {
+					c.roff = 0
+				}
+				if c.rb == nil {
+					c.rb = make([]byte, 1<<20)
+				}
+				if c.roff+len(c.win)+len(chunk) > len(c.rb) {
+					nb := make([]byte, 2*(c.roff+len(c.win)+len(chunk)))
+					copy(nb[c.roff:], c.win)
+					c.rb = nb
+				}
+				copy(c.rb[c.roff+len(c.win):], chunk)
+				c.win = c.rb[c.roff : c.roff+len(c.win)+len(chunk)]
 				c.conn.committed = 0
 				func() {
 					defer func() {
@@ -298,12 +315,13 @@ func c13Exec(ops []string) (res vResult) {
 						}
 					}()
 					// exactly what the event loop does for one read
-					c.s.onEventData(append([]byte{}, c.win...), c.conn)
+					c.s.onEventData(c.win, c.conn)
 				}()
 				if c.conn.committed < 0 || c.conn.committed > len(c.win) {
 					c.setFail("consumed-out-of-range", fmt.Sprintf("handleEvents consumed %d of %d bytes", c.conn.committed, len(c.win)))
 					c.win = nil
 				} else {
+					c.roff += c.conn.committed
 					c.win = c.win[c.conn.committed:]
 				}
 				if c.s.IsClosed() {
